@@ -522,6 +522,104 @@ func c20WaveWriteCheck(lc *explore.Local, _ struct{}, c c20WaveWrite) *explore.F
 	return nil
 }
 
+// c20Late: only channel Obs is routed (to both sides); channel Other plays unrouted. Half-way Obs's frequency low byte
+// is rewritten without a trigger (so its pitch is what NRx3 and the earlier NRx4 say). The runs differ only in Other:
+// its frequency high bits (7 / 3), or it is started later (from idle, 600 cycles in) instead of at the beginning.
+// Every sample of both sides must be the same in all three runs.
+type c20Late struct {
+	Obs, Other int // 1..4
+}
+
+func c20LateRun(c c20Late, variant int) (l, r []float32) {
+	m := machine.New(machine.ROMOnly(), machine.Opts{Audio: true, ChanCap: 4096})
+	w := m.Map.Write
+	w(0xff26, 0x00)
+	w(0xff26, 0x80)
+	w(0xff24, 0x77)
+	w(0xff25, uint8(0x11)<<uint(c.Obs-1))
+	for i := 0; i < 16; i++ {
+		w(0xff30+uint16(i), uint8(i*17+3))
+	}
+	start := func(ch int, hi uint8, trig bool) {
+		t := uint8(0)
+		if trig {
+			t = 0x80
+		}
+		switch ch {
+		case 1:
+			w(0xff10, 0x00)
+			w(0xff11, 0x80)
+			w(0xff12, 0xf0)
+			w(0xff13, 0x9b)
+			w(0xff14, t|hi)
+		case 2:
+			w(0xff16, 0x40)
+			w(0xff17, 0xf0)
+			w(0xff18, 0x9b)
+			w(0xff19, t|hi)
+		case 3:
+			w(0xff1a, 0x80)
+			w(0xff1c, 0x20)
+			w(0xff1d, 0x9b)
+			w(0xff1e, t|hi)
+		case 4:
+			w(0xff21, 0xf0)
+			w(0xff22, 0x00)
+			w(0xff23, t)
+		}
+	}
+	otherHi := uint8(7)
+	if variant == 1 {
+		otherHi = 3
+	}
+	start(c.Other, otherHi, variant != 2)
+	start(c.Obs, 7, true)
+	for cyc := 0; cyc < 1600; cyc++ {
+		if cyc == 500 && c.Obs <= 3 {
+			w([4]uint16{0, 0xff13, 0xff18, 0xff1d}[c.Obs], 0x3c)
+		}
+		if cyc == 600 && variant == 2 {
+			start(c.Other, otherHi, true)
+		}
+		m.A.EndMachineCycle()
+		a, b := drain(m)
+		l, r = append(l, a...), append(r, b...)
+	}
+	return
+}
+
+func c20LateCheck(lc *explore.Local, _ struct{}, c c20Late) *explore.Fail {
+	bl, br := c20LateRun(c, 0)
+	if len(bl) < 50 {
+		return explore.Failf("harness: too few samples", "%d", len(bl))
+	}
+	loud := false
+	for _, v := range bl {
+		loud = loud || v != 0
+	}
+	if !loud {
+		return explore.Failf("harness: the routed channel is silent", "channel %d", c.Obs)
+	}
+	for variant, what := range map[int]string{1: "has other frequency high bits", 2: "is started 600 cycles later instead of at the beginning"} {
+		al, ar := c20LateRun(c, variant)
+		for side, pair := range [][2][]float32{{br, ar}, {bl, al}} {
+			if len(pair[0]) != len(pair[1]) {
+				return explore.Failf("a sample depends on a channel that is not routed to that side", "only channel %d routed; channel %d (unrouted) %s: %d vs %d samples", c.Obs, c.Other, what, len(pair[0]), len(pair[1]))
+			}
+			for i := range pair[0] {
+				if pair[0][i] != pair[1][i] {
+					return explore.Failf("a sample depends on a channel that is not routed to that side", "only channel %d is routed (both sides); when channel %d (unrouted) %s, %s sample %d changes %v -> %v",
+						c.Obs, c.Other, what, [2]string{"right", "left"}[side], i, pair[0][i], pair[1][i])
+				}
+			}
+		}
+		lc.Trans(len(al))
+	}
+	lc.Eval(1)
+	lc.Outcome(uint64(c.Obs)<<4 | uint64(c.Other))
+	return nil
+}
+
 // c20Wired: the emulator as gameboy.New wires it, with the (stub) speakers attached: a guest routes channel 1 to one
 // side only; what arrives at the speakers' Left() and Right() must be that side's mix and silence on the other side.
 type c20Wired struct {
@@ -680,6 +778,16 @@ func init() {
 					}
 				}
 			}, func() struct{} { return struct{}{} }, c20WaveWriteCheck)
+		explore.Product(c.R, "independence-with-late-events", explore.PartOpt{Bound: "1,600 machine cycles per run, three runs per pair", Domain: "every ordered pair (routed channel, unrouted channel): the unrouted one with other frequency high bits, or started 600 cycles in; the routed one's frequency low byte rewritten half-way"},
+			func(yield func(c20Late) bool) {
+				for obs := 1; obs <= 4; obs++ {
+					for other := 1; other <= 4; other++ {
+						if obs != other && !yield(c20Late{obs, other}) {
+							return
+						}
+					}
+				}
+			}, func() struct{} { return struct{}{} }, c20LateCheck)
 		explore.Product(c.R, "routing-through-the-real-constructor", explore.PartOpt{Workers: 4, Bound: "3 frames of the real runFrame per case", Domain: "gameboy.New with speakers attached; channel 1 routed left only, right only, both, neither x NR50 {77, 71, 17}"},
 			func(yield func(c20Wired) bool) {
 				for _, nr51 := range []uint8{0x10, 0x01, 0x11, 0x00, 0xee} {
